@@ -448,7 +448,12 @@ impl wire::Decode for ZeroBytes {
     fn decode<R: std::io::Read + ?Sized>(reader: &mut R) -> Result<Self, wire::Error> {
         let zeroes = u16::decode(reader)?;
         for _ in 0..zeroes {
-            _ = u8::decode(reader)?;
+            // Nb. Only the count is retained, and the bytes are re-created as zeroes when
+            // encoding, so anything else would not round-trip.
+            match u8::decode(reader)? {
+                0 => {}
+                byte => return Err(wire::Error::InvalidPadding(byte)),
+            }
         }
         Ok(ZeroBytes::new(zeroes))
     }
@@ -464,6 +469,7 @@ mod tests {
 
     use crate::deserializer::Deserializer;
     use crate::test::arbitrary;
+    use crate::test::assert_matches;
     use crate::wire::{self, Encode};
 
     #[test]
@@ -580,6 +586,23 @@ mod tests {
         qcheck::QuickCheck::new()
             .gen(qcheck::Gen::new(16))
             .quickcheck(property as fn(items: Vec<Message>));
+    }
+
+    #[test]
+    fn test_zero_bytes_non_zero() {
+        assert_eq!(
+            wire::deserialize::<ZeroBytes>(&[0, 3, 0, 0, 0]).unwrap(),
+            ZeroBytes::new(3)
+        );
+        assert_matches!(
+            wire::deserialize::<ZeroBytes>(&[0, 3, 0, 1, 0]),
+            Err(wire::Error::InvalidPadding(1))
+        );
+        // A "ping" with a non-zero byte in its padding.
+        assert_matches!(
+            wire::deserialize::<Message>(&[0, 10, 0, 0, 0, 2, 0, 255]),
+            Err(wire::Error::InvalidPadding(255))
+        );
     }
 
     #[quickcheck]
